@@ -56,6 +56,9 @@ var c04Far = []string{"10.1.2.3", "10.1.2.4", "192.168.7.9", "2001:db8::1", "200
 
 func genChain(t *rapid.T, first string) []string {
 	n := rapid.IntRange(0, 4).Draw(t, "chainExtra")
+	if rapid.IntRange(0, 4).Draw(t, "longChain") == 0 {
+		n = rapid.IntRange(5, 40).Draw(t, "chainLong") // many proxies in front
+	}
 	el := []string{first}
 	for i := 0; i < n; i++ {
 		el = append(el, rapid.SampledFrom(append(c04Far[:6:6], c04IPs...)).Draw(t, "proxy"))
@@ -78,7 +81,7 @@ func genC04(t *rapid.T) c04Case {
 	if rapid.Bool().Draw(t, "issueXFF") {
 		c.Issue.XFF = genChain(t, rapid.SampledFrom(append(c04Far, c04IPs...)).Draw(t, "issueFirst"))
 	}
-	c.Rel = rapid.SampledFrom([]string{"same", "same", "other-ip", "last-octet", "extra-element", "xff-vs-peer", "xff-dropped", "xff-added", "text-variant", "free"}).Draw(t, "rel")
+	c.Rel = rapid.SampledFrom([]string{"same", "same", "other-ip", "last-octet", "extra-element", "xff-vs-peer", "xff-dropped", "xff-added", "text-variant", "free", "same-proxies", "same-proxies"}).Draw(t, "rel")
 	a := refAddr(c.Issue)
 	c.Use = c04Side{IP: c.Issue.IP, XFF: c.Issue.XFF}
 	switch c.Rel {
@@ -110,6 +113,22 @@ func genC04(t *rapid.T) c04Case {
 		}
 	case "xff-dropped":
 		c.Use.XFF = nil
+	case "same-proxies": // another client behind the very same chain of proxies
+		if c.Issue.XFF == nil {
+			c.Issue.XFF = genChain(t, rapid.SampledFrom(c04Far[:6]).Draw(t, "issueFirst2"))
+			a = refAddr(c.Issue)
+		}
+		lines := append([]string(nil), c.Issue.XFF...)
+		other := rapid.SampledFrom([]string{"10.1.2.3", "10.1.2.4", "192.168.7.9", "2001:db8::2", "203.0.113.9"}).Draw(t, "otherClient")
+		if other == a {
+			other = "198.51.100.7"
+		}
+		if i := strings.IndexByte(lines[0], ','); i >= 0 {
+			lines[0] = other + lines[0][i:]
+		} else {
+			lines[0] = other
+		}
+		c.Use.XFF = lines
 	case "xff-added":
 		c.Use.XFF = genChain(t, rapid.SampledFrom(append(c04Far, c04IPs...)).Draw(t, "useFirst"))
 	case "text-variant":
